@@ -2,6 +2,7 @@ import OsuProofs.RotationST
 import OsuProofs.RotationField
 import OsuProofs.RotationST4
 import OsuProofs.RotationStress
+import OsuProofs.MirrorField
 /-
 C09 — source terms, roughness and stress are invariant under joint rotation.
 
@@ -266,6 +267,92 @@ example : (dissipationVector (uniformGrid (N := 1) 0 [1] [1]) { k := [1], cg := 
     (dissipationVector (uniformGrid (N := 1) 0 [1] [1]) { k := [1], cg := [1], c := [1] } (fieldOf (N := 1) [fun _ => (-1 : ℝ)])).2 ≠ 0 := by
   left
   simp [dissipationVector, uniformGrid, fieldOf, lsum, theta, deg2rad, dθ, Osu.Transc.cos]
+
+/-! ### mirror image of the whole fields (grid starting at 0): direction axis and wind direction negated -/
+
+theorem field_mir_as_map (D : List (Fin N → ℝ)) :
+    fieldOf (mirField D) = (fieldOf D).map (fun row => List.ofFn (mirE (fun j : Fin N => row.getD j 0))) := by
+  simp only [fieldOf, mirField, List.map_map]
+  apply List.map_congr_left
+  intro r _
+  simp only [Function.comp]
+  congr 1
+  funext j
+  simp [mirE]
+
+/-- wind input: the field of the mirrored spectrum under the mirrored wind is the mirrored field -/
+theorem wind_input_field_mirrors (p : GenP ℝ) (om df : List ℝ) (kin : Kin ℝ) (rows : List (Fin N → ℝ)) (w : Wind ℝ) (z0 : ℝ) :
+    st4Input rfloor p (uniformGrid (N := N) 0 om df) kin (fieldOf (mirField rows)) (flipWind w) z0
+      = (st4Input rfloor p (uniformGrid (N := N) 0 om df) kin (fieldOf rows) w z0).map
+          (fun row => List.ofFn (mirE (fun j : Fin N => row.getD j 0))) := by
+  obtain ⟨S, hS, hS'⟩ := st4Input_flip p om df kin rows w z0
+  rw [hS, hS', field_mir_as_map]
+
+/-- ST6 dissipation -/
+theorem st6_field_mirrors (sp : St6P ℝ) (om df : List ℝ) (kin : Kin ℝ) (rows : List (Fin N → ℝ)) :
+    st6Dissipation sp (uniformGrid (N := N) 0 om df) kin (fieldOf (mirField rows))
+      = (st6Dissipation sp (uniformGrid (N := N) 0 om df) kin (fieldOf rows)).map
+          (fun row => List.ofFn (mirE (fun j : Fin N => row.getD j 0))) := by
+  obtain ⟨D, h0, h1⟩ := st6_field_mir sp om df kin rows
+  rw [h0, h1, field_mir_as_map]
+
+/-- ST4 dissipation (band saturation, saturation and cumulative terms) -/
+theorem st4_dissipation_field_mirrors (bp : BrkP ℝ) (om df : List ℝ) (kin : Kin ℝ) (rows : List (Fin N → ℝ)) :
+    st4Dissipation rfloor bp (uniformGrid (N := N) 0 om df) kin (fieldOf (mirField rows))
+      = (st4Dissipation rfloor bp (uniformGrid (N := N) 0 om df) kin (fieldOf rows)).map
+          (fun row => List.ofFn (mirE (fun j : Fin N => row.getD j 0))) := by
+  rw [st4Dissipation_field, st4Dissipation_field, st4DissRows_mir, field_mir_as_map]
+
+/-- resolved stress and tail stress are reflected (east kept, north negated) -/
+theorem resolved_stress_mirrors (p : GenP ℝ) (om df : List ℝ) (kin : Kin ℝ) (S : List (Fin N → ℝ)) :
+    IsMir (resolvedStress p (uniformGrid (N := N) 0 om df) kin (fieldOf S))
+      (resolvedStress p (uniformGrid (N := N) 0 om df) kin (fieldOf (mirField S))) :=
+  resolvedStress_mir p om df kin S
+
+theorem tail_stress_mirrors (p : GenP ℝ) (om df : List ℝ) (rows : List (Fin N → ℝ)) (w : Wind ℝ) (z0 : ℝ) :
+    OptMir (wamTail p (uniformGrid (N := N) 0 om df) (fieldOf rows) w z0)
+      (wamTail p (uniformGrid (N := N) 0 om df) (fieldOf (mirField rows)) (flipWind w) z0) :=
+  wamTail_mir p om df rows w z0
+
+/-- stress magnitude, stress balance and roughness are unchanged by the mirror image -/
+theorem total_stress_magnitude_mirror_invariant (p : GenP ℝ) (om df : List ℝ) (kin : Kin ℝ) (rows : List (Fin N → ℝ))
+    (w : Wind ℝ) (z0 : ℝ) :
+    (totalStress rfloor p (uniformGrid (N := N) 0 om df) kin (fieldOf (mirField rows)) (flipWind w) z0).map Prod.fst
+      = (totalStress rfloor p (uniformGrid (N := N) 0 om df) kin (fieldOf rows) w z0).map Prod.fst :=
+  totalStress_magnitude_mir p om df kin rows w z0
+
+theorem roughness_of_mirror_invariant (nan : ℝ) (p : GenP ℝ) (om df : List ℝ) (kin : Kin ℝ) (rows : List (Fin N → ℝ))
+    (w : Wind ℝ) (guess : ℝ) :
+    roughnessOf nan rfloor p (uniformGrid (N := N) 0 om df) kin (fieldOf (mirField rows)) (flipWind w) guess
+      = roughnessOf nan rfloor p (uniformGrid (N := N) 0 om df) kin (fieldOf rows) w guess :=
+  roughnessOf_mir nan p om df kin rows w guess
+
+/-- bulk rates, the balance function of the wind inversion and hence the estimated wind speed -/
+theorem bulk_rate_mirror_invariant (om df : List ℝ) (D : List (Fin N → ℝ)) :
+    bulk (uniformGrid (N := N) 0 om df) (fieldOf (mirField D)) = bulk (uniformGrid (N := N) 0 om df) (fieldOf D) :=
+  bulk_mir om df D
+
+theorem u10_balance_mirror_invariant (nan : ℝ) (p : GenP ℝ) (om df : List ℝ) (kin : Kin ℝ) (rows dEdt : List (Fin N → ℝ))
+    (dir target : ℝ) :
+    u10Balance nan rfloor p (uniformGrid (N := N) 0 om df) kin (fieldOf (mirField rows)) (-dir) target (fieldOf (mirField dEdt))
+      = u10Balance nan rfloor p (uniformGrid (N := N) 0 om df) kin (fieldOf rows) dir target (fieldOf dEdt) :=
+  u10Balance_mir nan p om df kin rows dEdt dir target
+
+theorem u10_estimate_mirror_invariant (nan : ℝ) (p : GenP ℝ) (om df : List ℝ) (kin : Kin ℝ) (rows dEdt : List (Fin N → ℝ))
+    (dir target bulkRate guess : ℝ) :
+    u10FromBulkRate (u10Balance nan rfloor p (uniformGrid (N := N) 0 om df) kin (fieldOf (mirField rows)) (-dir) target
+        (fieldOf (mirField dEdt))) bulkRate guess (-dir)
+      = ((u10FromBulkRate (u10Balance nan rfloor p (uniformGrid (N := N) 0 om df) kin (fieldOf rows) dir target (fieldOf dEdt))
+          bulkRate guess dir).1, -dir) := by
+  rw [u10Balance_mir]
+  simp only [u10FromBulkRate]
+  split <;> rfl
+
+/-- the dissipation-weighted wavenumber vector is reflected, so its direction is negated -/
+theorem dissipation_vector_mirrors (om df : List ℝ) (kin : Kin ℝ) (D : List (Fin N → ℝ)) :
+    IsMir (dissipationVector (uniformGrid (N := N) 0 om df) kin (fieldOf D))
+      (dissipationVector (uniformGrid (N := N) 0 om df) kin (fieldOf (mirField D))) :=
+  dissipationVector_mir om df kin D
 
 /-- the hypotheses-free statements above are about a non-degenerate rotation: a quarter turn on four
 bins moves the energy of bin 0 to bin 1 -/
